@@ -216,7 +216,7 @@ def rawsOf : List Ev → List (List Bytes)
 
 theorem logEv_code_cmd (w : List String) (st : LogSt) (ve : Bool) (now : Nat) (obs : Option (List Bytes)) (raw : List Bytes) :
     (logEv (Cfg.code w) st (.cmd ve now obs raw)).1 = if isWrite w (nameOf raw) = true then [raw] else [] := by
-  simp only [logEv, Cfg.code, selFor, Bool.false_eq_true, false_and, if_false, List.nil_append]
+  simp only [logEv, Cfg.code, entryOf, selFor, Bool.false_eq_true, false_and, if_false, List.nil_append]
   split <;> rfl
 
 theorem logEv_code_wake (w : List String) (st : LogSt) (db now : Nat) (left : Bool) (key : Bytes) :
@@ -238,53 +238,56 @@ theorem log_code_eq_filter (w : List String) (st : LogSt) (h : List Ev) :
       simp
 
 /-- one `append_command_in_db` writes the entries `selFor … ++ [cmd]` and moves `last_db` as the tracking says -/
-theorem appendInDb_eq (w : List String) (sel wake : Bool) (st : LogSt) (file : Bytes) (d : Nat) (cmd : List Bytes) :
-    Code.appendInDb sel st.file file d cmd =
-      (file ++ fileOf (selFor (Cfg.tree w sel wake) st d ++ [cmd]), fileAfter (Cfg.tree w sel wake) st d) := by
-  unfold Code.appendInDb selFor fileAfter Cfg.tree
-  by_cases h : sel = true ∧ st.file ≠ d
+theorem appendInDb_eq (cfg : Cfg) (st : LogSt) (file : Bytes) (d : Nat) (cmd : List Bytes) :
+    Code.appendInDb cfg.logSelect st.file file d cmd =
+      (file ++ fileOf (selFor cfg st d ++ [cmd]), fileAfter cfg st d) := by
+  unfold Code.appendInDb selFor fileAfter
+  by_cases h : cfg.logSelect = true ∧ st.file ≠ d
   · simp [h, h.1, fileOf]
   · simp only [h, if_false]
     simp [fileOf]
 
-theorem fileStep_eq (w : List String) (sel wake : Bool) (hwf : isWrite w "SELECT" = false) (s : Code.FileSt) (ev : Ev) :
-    (Code.fileStep w sel wake s ev).file = s.file ++ fileOf (logEv (Cfg.tree w sel wake) ⟨s.conn, s.last⟩ ev).1 ∧
-    (⟨(Code.fileStep w sel wake s ev).conn, (Code.fileStep w sel wake s ev).last⟩ : LogSt) =
-      (logEv (Cfg.tree w sel wake) ⟨s.conn, s.last⟩ ev).2 := by
+theorem fileStep_eq (w : List String) (sel wake eff : Bool) (hwf : isWrite w "SELECT" = false) (s : Code.FileSt) (ev : Ev) :
+    (Code.fileStep w sel wake eff s ev).file = s.file ++ fileOf (logEv (Cfg.treeE w sel wake eff) ⟨s.conn, s.last⟩ ev).1 ∧
+    (⟨(Code.fileStep w sel wake eff s ev).conn, (Code.fileStep w sel wake eff s ev).last⟩ : LogSt) =
+      (logEv (Cfg.treeE w sel wake eff) ⟨s.conn, s.last⟩ ev).2 := by
   cases ev with
   | cmd ve now obs raw =>
     by_cases hw : isWrite w (nameOf raw) = true
     · have hs : nameOf raw ≠ "SELECT" := by
         intro h; rw [h, hwf] at hw; exact absurd hw (by decide)
-      have := appendInDb_eq w sel wake ⟨s.conn, s.last⟩ s.file s.conn raw
-      simp only at this
-      simp only [Code.fileStep, logEv, hw, if_true, hs, if_false, this]
-      simp [Cfg.tree, hw]
+      cases he : entryOf eff raw obs with
+      | none => simp [Code.fileStep, logEv, hw, he, Cfg.treeE, fileOf]
+      | some e =>
+        have := appendInDb_eq (Cfg.treeE w sel wake eff) ⟨s.conn, s.last⟩ s.file s.conn e
+        simp only [Cfg.treeE] at this
+        simp only [Code.fileStep, logEv, hw, if_true, hs, if_false, he, Cfg.treeE, this]
+        simp
     · have hw' : isWrite w (nameOf raw) = false := by simpa using hw
-      simp [Code.fileStep, logEv, hw', Cfg.tree, fileOf]
+      simp [Code.fileStep, logEv, hw', Cfg.treeE, fileOf]
   | wake db now left key =>
     cases wake with
-    | false => simp [Code.fileStep, logEv, Cfg.tree, fileOf]
+    | false => simp [Code.fileStep, logEv, Cfg.treeE, fileOf]
     | true =>
-      have := appendInDb_eq w sel true ⟨s.conn, s.last⟩ s.file db (popCmd left key)
-      simp only at this
-      simp only [Code.fileStep, logEv, if_true, this]
-      simp [Cfg.tree]
+      have := appendInDb_eq (Cfg.treeE w sel true eff) ⟨s.conn, s.last⟩ s.file db (popCmd left key)
+      simp only [Cfg.treeE] at this
+      simp only [Code.fileStep, logEv, if_true, Cfg.treeE, this]
+      simp
 
 /-- the file after a history = what was there ++ the serialisation of the log -/
-theorem fileAfter_eq_from (w : List String) (sel wake : Bool) (hwf : isWrite w "SELECT" = false) (s : Code.FileSt) (h : List Ev) :
-    (Code.fileAfter w sel wake s h).file = s.file ++ fileOf (logFrom (Cfg.tree w sel wake) ⟨s.conn, s.last⟩ h) := by
+theorem fileAfter_eq_from (w : List String) (sel wake eff : Bool) (hwf : isWrite w "SELECT" = false) (s : Code.FileSt) (h : List Ev) :
+    (Code.fileAfter w sel wake eff s h).file = s.file ++ fileOf (logFrom (Cfg.treeE w sel wake eff) ⟨s.conn, s.last⟩ h) := by
   induction h generalizing s with
   | nil => simp [Code.fileAfter, logFrom, fileOf]
   | cons ev t ih =>
-    have hstep := fileStep_eq w sel wake hwf s ev
-    have := ih (Code.fileStep w sel wake s ev)
+    have hstep := fileStep_eq w sel wake eff hwf s ev
+    have := ih (Code.fileStep w sel wake eff s ev)
     simp only [Code.fileAfter, List.foldl_cons] at this ⊢
     rw [this, hstep.1, hstep.2, logFrom, fileOf_append, List.append_assoc]
 
-theorem fileAfter_eq (w : List String) (sel wake : Bool) (hwf : isWrite w "SELECT" = false) (h : List Ev) :
-    (Code.fileAfter w sel wake {} h).file = fileOf (log (Cfg.tree w sel wake) h) := by
-  have := fileAfter_eq_from w sel wake hwf {} h
+theorem fileAfter_eq (w : List String) (sel wake eff : Bool) (hwf : isWrite w "SELECT" = false) (h : List Ev) :
+    (Code.fileAfter w sel wake eff {} h).file = fileOf (log (Cfg.treeE w sel wake eff) h) := by
+  have := fileAfter_eq_from w sel wake eff hwf {} h
   simpa [log] using this
 
 end Ferrous.Aof
